@@ -132,7 +132,7 @@ fn history_block(inp: &Input, rng: &mut Rng, quick: bool, s: &mut String) {
         }
     };
     s.push_str(&dump_circuit(&d));
-    hook::reset_enumeration_cache();
+    crate::common::reset_cursor();
     let steps = if quick { 25 } else { 80 };
     for k in 0..steps {
         let q = random_req(rng, inp.n);
@@ -168,7 +168,7 @@ fn cross_block(id: String, a: &Input, b: &Input, rng: &mut Rng, s: &mut String) 
     };
     let seq: Vec<(usize, usize)> = (0..8).map(|_| (rng.below(2) as usize, 1 + rng.below(3) as usize)).collect();
     // interleaved run
-    hook::reset_enumeration_cache();
+    crate::common::reset_cursor();
     for (m, k) in &seq {
         let d = if *m == 0 { &mut da } else { &mut db };
         let r = answer(d, &Req::Enum(vec![], *k), "x");
@@ -176,7 +176,7 @@ fn cross_block(id: String, a: &Input, b: &Input, rng: &mut Rng, s: &mut String) 
     }
     // reference: each model alone in the process (cursor reset in between)
     for m in 0..2usize {
-        hook::reset_enumeration_cache();
+        crate::common::reset_cursor();
         for (mm, k) in &seq {
             if *mm == m {
                 let d = if m == 0 { &mut da } else { &mut db };
@@ -185,7 +185,7 @@ fn cross_block(id: String, a: &Input, b: &Input, rng: &mut Rng, s: &mut String) 
             }
         }
     }
-    hook::reset_enumeration_cache();
+    crate::common::reset_cursor();
     writeln!(s, "end").unwrap();
 }
 
